@@ -241,10 +241,21 @@ func (x *fnCtx) runBlock(st *State, b, pred *ssa.BasicBlock, starting bool) {
 		return
 	}
 	st.steps++
-	if st.steps > 400 {
+	if st.steps > 400 && x.unroll == 0 {
 		x.fail("path too long (unbounded unrolling?)")
 	}
-	if ord, isHdr := x.headers[b]; isHdr && fr.isTop && !starting {
+	if x.unroll > 0 {
+		// bounded mode (counterexample search only): loops are unrolled up to x.unroll visits
+		if _, isHdr := x.headers[b]; isHdr && fr.isTop && !starting {
+			if st.visits == nil {
+				st.visits = map[*ssa.BasicBlock]int{}
+			}
+			st.visits[b]++
+			if st.visits[b] > x.unroll || st.steps > 3000 {
+				return
+			}
+		}
+	} else if ord, isHdr := x.headers[b]; isHdr && fr.isTop && !starting {
 		x.arriveAtHeader(st, fr, b, pred, ord)
 		return
 	}
